@@ -62,7 +62,7 @@ def proj(lines, src, keep_ops=None, keep_events=(), dump=False, sort_events=True
 SPECS = {
     "C01": dict(
         title="observed values equal a from-scratch evaluation",
-        streams=[("c01", 2000, 60000, 40)],
+        streams=[("c01", 1500, 60000, 40), ("reobserve", 1500, 40000, 0)],
         proj=dict(keep_ops=("read",), keep_events=()),
         oracle=lambda s, o, t: O.oracle_values(s, o, t, check_frame=False),
         profiles=("debug",), dump=False,
@@ -96,7 +96,7 @@ SPECS = {
     ),
     "C05": dict(
         title="only needed nodes are computed",
-        streams=[("observers", 800, 40000, 40), ("basic", 200, 20000, 30), ("exports", 400, 20000, 40)],
+        streams=[("observers", 700, 40000, 40), ("basic", 200, 20000, 30), ("exports", 300, 20000, 40), ("direct", 400, 20000, 0)],
         proj=dict(keep_ops=("stabilise", "stats"), keep_events=("inv", "foldcall", "bindrun", "rec")),
         oracle=O.oracle_only_needed, profiles=("debug",), dump=True,
         nontrivial=lambda src, ops: any(l.startswith(("dropobs", "disallow")) for l in src) and any(o.events for o in ops),
@@ -134,7 +134,7 @@ SPECS = {
     ),
     "C09": dict(
         title="subscriptions",
-        streams=[("subs", 2000, 40000, 40)],
+        streams=[("subs", 1500, 40000, 40), ("subsub", 800, 30000, 40)],
         proj=dict(keep_ops=("subscribe", "unsubscribe", "read"), keep_events=("upd",)),
         oracle=O.oracle_subscriptions, profiles=("debug",), dump=False,
         nontrivial=lambda src, ops: sum(1 for o in ops for e in o.events if e.startswith("upd")) >= 2,
@@ -151,7 +151,8 @@ SPECS = {
     ),
     "C11": dict(
         title="bookkeeping audit after every action",
-        streams=[("basic", 400, 20000, 40), ("binds", 400, 20000, 40), ("drops", 400, 20000, 40), ("subs", 300, 20000, 40)],
+        streams=[("basic", 300, 20000, 40), ("binds", 300, 20000, 40), ("drops", 300, 20000, 40), ("subs", 250, 20000, 40),
+                 ("direct", 300, 20000, 0)],
         proj=dict(keep_ops=None, keep_events=("rec", "nec", "unnec", "invalidate"), dump=True, sort_events=False),
         oracle=O.oracle_audit, profiles=("debug",), dump=True,
         nontrivial=lambda src, ops: sum(1 for l in src if l == "stabilise") >= 2,
@@ -186,6 +187,61 @@ SPECS = {
         rule_nt="at least two memoised calls in the source and the underlying function ran at least once",
     ),
 }
+
+
+HANDLE_MAKERS = ("var", "pair", "const", "map", "mapref", "mapold", "fold", "zip", "dependon", "bind", "observe", "observeexport",
+                 "mapexport", "subscribe", "memonew", "memocall", "expert", "varmap", "permapi", "permapiom", "adddep")
+
+
+def shrink(pid, spec, impl, v, rounds=6):
+    """greedy reduction of a failing history: cut the tail after the failing operation, then drop, one at a time,
+    operations that create no handle (writes, stabilises, reads, drops, cutoffs ...) as long as the oracle still fails on
+    the crate.  Every candidate is run on the real library; nothing is assumed."""
+    prof = v["profile"]
+    dbg = 1 if prof == "debug" else 0
+    dump = 1 if spec["dump"] else 0
+
+    def failing(cands):
+        texts = [(f"s{i}", ec.history_text(f"s{i}", c, debug=dbg, dump=dump)) for i, c in enumerate(cands)]
+        out = ec.run_all(impl[prof], texts)
+        res = []
+        for i, c in enumerate(cands):
+            ops, tail = T.parse_trace(out.get(f"s{i}", []))
+            try:
+                why = spec["oracle"](c, ops, tail)
+            except Exception:
+                why = None
+            res.append(why)
+        return res
+    cur = list(v["source"])
+    why = v["oracle"]
+    # 1. truncate: shortest prefix that still fails
+    prefixes = [cur[:k] for k in range(1, len(cur))]
+    rs = failing(prefixes)
+    for c, r in zip(prefixes, rs):
+        if r:
+            cur, why = c, r
+            break
+    # 2. drop single operations
+    for _ in range(rounds):
+        idx = [i for i, l in enumerate(cur) if l.split()[0] not in HANDLE_MAKERS]
+        cands = [cur[:i] + cur[i + 1:] for i in idx]
+        if not cands:
+            break
+        rs = failing(cands)
+        progress = False
+        # apply as many removals as stay failing, from the end so that indices remain valid
+        for i, c, r in sorted(zip(idx, cands, rs), key=lambda x: -x[0]):
+            if r:
+                trial = cur[:i] + cur[i + 1:]
+                if failing([trial])[0]:
+                    cur, progress = trial, True
+        if not progress:
+            break
+        why = failing([cur])[0] or why
+    if len(cur) < len(v["source"]):
+        v = dict(v, source=cur, oracle=why, shrunk_from=len(v["source"]))
+    return v
 
 
 def load_known(pid):
@@ -256,6 +312,10 @@ def run(pid, tier, seed):
     rc = 0
     if violations:
         v = min(violations, key=lambda v: len(v["source"]))
+        try:
+            v = shrink(pid, spec, impl, v)
+        except Exception as e:       # shrinking is a convenience: never let it hide the violation
+            v["shrink_error"] = repr(e)
         path = vlib.write_replay(pid, dict(property=pid, kind="failing-input", **v,
                                            replay_cmd="./verify replay <this file>", other_failures=len(violations) - 1))
         vlib.report_violation(pid, path, True)
